@@ -317,6 +317,11 @@ func runC01(ctx *Ctx) {
 	}
 	in, res := doIngest(t, rs, w, comma, false)
 	ctx.Emit("ingest", in, res, ingestNontrivial(in, res), tags...)
+	if ctx.Idx%12 == 2 || ctx.Idx%12 == 8 {
+		// in addition (draws after those of the case above): the same table with a spill file cut short
+		// before the merge reads it (c01torn.go)
+		c01TornCase(ctx, ctx.R, t, rs, w, comma, tags)
+	}
 }
 
 func corpusC01(ctx *Ctx, op string, raw json.RawMessage) {
@@ -330,6 +335,21 @@ func corpusC01(ctx *Ctx, op string, raw json.RawMessage) {
 	}
 	if op == "export-history" {
 		corpusHistory(ctx, op, raw)
+		return
+	}
+	if op == "ingest-torn-spill" {
+		var in c01TornInput
+		if err := json.Unmarshal(raw, &in); err != nil {
+			panic(err)
+		}
+		if in.Spec != nil {
+			var comma rune
+			if in.Comma != "" {
+				comma = []rune(in.Comma)[0]
+			}
+			in2, res := c01TornRun(in.Spec, in.RunSize, in.Workers, comma, in.TornChunk, in.TornPos)
+			c01TornEmit(ctx, in2, res, "corpus")
+		}
 		return
 	}
 	var in ingestInput
